@@ -378,5 +378,354 @@ theorem sim_mcast {vty : Var → Ty} {ty : VTy} {x : VExpr} {x' a : VAExpr} {tx 
             simp only [hsel, VMsl.castMVR, castShapeR, hval]
             cases castShape W.P ty v <;> rfl
 
+
+/-! ### swizzles: members on vectors; on scalars the operand itself or the constructor `T_n(s)` -/
+
+theorem fmod_not_type : VMsl.vtyOfName Msl.fmodName = none := by decide
+
+theorem typeName_ne_fmod {n : String} {ty : VTy} (h : VMsl.vtyOfName n = some ty) : (n == Msl.fmodName) = false := by
+  cases hb : n == Msl.fmodName with
+  | false => rfl
+  | true =>
+    have : n = Msl.fmodName := by simpa using hb
+    subst this
+    rw [fmod_not_type] at h; simp at h
+
+theorem slots_all_x {sl : List SwizzleSlot} (h : sl.all (fun s => decide (slotIdx s < 1)) = true) :
+    sl.all (fun s => decide (s = .X)) = true ∧ sl.map slotIdx = List.replicate sl.length 0 := by
+  induction sl with
+  | nil => simp
+  | cons s r ih =>
+    simp only [List.all_cons, Bool.and_eq_true, decide_eq_true_eq] at h
+    obtain ⟨ih1, ih2⟩ := ih h.2
+    have : s = .X := by cases s <;> simp [slotIdx] at h <;> rfl
+    subst this
+    simp [ih1, ih2, slotIdx, List.replicate_succ]
+
+theorem mapOpt_replicate_zero (y : Val) : ∀ n, mapOpt (fun i => [y][i]?) (List.replicate n 0) = some (List.replicate n y)
+  | 0 => rfl
+  | n + 1 => by simp [List.replicate_succ, mapOpt, mapOpt_replicate_zero y n]
+
+theorem sim_mswz {vty : Var → Ty} {x : VExpr} {sl : List SwizzleSlot} {x' a : VAExpr} {tx t : VTy}
+    (hρ : ∀ y, VOk.shaped (vvty y) (ρ y) = true)
+    (hgt : getTy cx vvty x = some tx) (hgx : genMV cx vvty x = .ok x') (hg : genMV cx vvty (.swz x sl) = .ok a)
+    (hx : VSimM W M env ρ x x' tx) (htx : VIr.typeOf W.sig vty vvty x = some tx)
+    (ht : VIr.typeOf W.sig vty vvty (.swz x sl) = some t) (hox : VOk.tyOKM tx = true) (h4 : sl.length ≤ 4) :
+    VSimM W M env ρ (.swz x sl) a t := by
+  simp only [genMV, hgt, hgx] at hg
+  simp only [VIr.typeOf, htx] at ht
+  cases tx with
+  | vec k n =>
+    simp only [] at hg ht
+    simp at hg; subst hg
+    split at ht
+    · rename_i hc
+      simp only [Option.some.injEq] at ht; subst ht
+      obtain ⟨hne, hall, _⟩ := hc
+      have hmt : VMsl.memberTy (.vec k n) (GenMslVec.swizzleName sl) = some (Spec.SemVec.swzTy k sl.length) := by
+        have hne' : sl.map slotIdx ≠ [] := by simpa using hne
+        simp only [VMsl.memberTy, parse_mslSwizzleName, GenSemVec.all_map_slotIdx, hall, List.length_map]
+        simp [hne']
+      constructor
+      · simp [VMsl.typeOf, hx.1, hmt]
+      · intro σ
+        simp only [VMsl.eval, hx.1, hmt, parse_mslSwizzleName, hx.2 σ, VIr.eval]
+        cases VIr.eval W ρ x σ with
+        | none => rfl
+        | some r =>
+          obtain ⟨v, σ1⟩ := r
+          simp only []
+          cases select (sl.map slotIdx) v <;> rfl
+    · simp at ht
+  | sc k =>
+    simp only [] at hg ht
+    split at ht
+    · rename_i hc
+      simp only [Option.some.injEq] at ht; subst ht
+      obtain ⟨hne, hall, _⟩ := hc
+      obtain ⟨hallx, hmap⟩ := slots_all_x hall
+      have hk : VOk.basicK k = true := by simpa [VOk.tyOKM] using hox
+      have hun : unliteral k = k := by rcases basicK_cases hk with rfl | rfl | rfl | rfl <;> rfl
+      simp only [hallx, if_true, hun] at hg
+      by_cases h1 : sl.length = 1
+      · simp only [h1, if_true] at hg
+        simp at hg; subst hg
+        constructor
+        · simpa [Spec.SemVec.swzTy, h1] using hx.1
+        · intro σ
+          simp only [hx.2 σ, VIr.eval, hmap, h1]
+          cases hv : VIr.eval W ρ x σ with
+          | none => rfl
+          | some r =>
+            obtain ⟨v, σ1⟩ := r
+            obtain ⟨y, rfl⟩ := shaped_sc (shape_sound hρ x _ σ σ1 v htx hv)
+            simp [select, mapOpt, VVal.comps]
+      · simp only [h1, if_false] at hg
+        cases hn : GenMslVec.vtypeName (.vec k sl.length) with
+        | error e => simp [hn] at hg
+        | ok n =>
+          simp [hn] at hg; subst hg
+          have hlen2 : 2 ≤ sl.length := by
+            have : sl.length ≠ 0 := by simpa using hne
+            omega
+          have hoty : VOk.tyOKM (.vec k sl.length) = true := by simp [VOk.tyOKM, hk, hlen2, h4]
+          have htn := vtypeName_vtyOfName hn hoty
+          have hnf := typeName_ne_fmod htn
+          constructor
+          · simp [VMsl.typeOf, VMsl.argTypes, hx.1, VMsl.callTy, hnf, htn, VMsl.castOK, Spec.SemVec.swzTy, h1]
+          · intro σ
+            simp only [VMsl.eval, VMsl.argTypes, hx.1, VMsl.evalArgs, hx.2 σ, VIr.eval, hmap]
+            cases hv : VIr.eval W ρ x σ with
+            | none => rfl
+            | some r =>
+              obtain ⟨v, σ1⟩ := r
+              obtain ⟨y, rfl⟩ := shaped_sc (shape_sound hρ x _ σ σ1 v htx hv)
+              obtain ⟨m, hm⟩ : ∃ m, sl.length = m + 2 := ⟨sl.length - 2, by omega⟩
+              have hmo : mapOpt (fun i => [y][i]?) (0 :: 0 :: List.replicate m 0) = some (y :: y :: List.replicate m y) := by
+                have := mapOpt_replicate_zero y (m + 2)
+                simpa [List.replicate_succ] using this
+              simp [VMsl.callVal, hnf, htn, VMsl.castOK, VTy.scalar, select, VVal.comps, hm, List.replicate_succ, hmo]
+    · simp at ht
+
+
+/-! ### operators -/
+
+theorem arithK_cases {k : Ty} (h : VOk.arithK k = true) : k = .int ∨ k = .uint ∨ k = .float := by
+  cases k <;> simp [VOk.arithK] at h <;> simp
+
+theorem intK_cases {k : Ty} (h : VOk.intK k = true) : k = .int ∨ k = .uint := by
+  cases k <;> simp [VOk.intK] at h <;> simp
+
+theorem convMVR_self (P : Prim) (t : VTy) (r : VR) : VMsl.convMVR P t t r = r := by
+  cases r with
+  | none => rfl
+  | some p => simp [VMsl.convMVR, VMsl.convMV]
+
+theorem sim_mun {vty : Var → Ty} {o : IntrinsicOp} {u : UnaryOp} {x : VExpr} {x' : VAExpr} {tx t : VTy}
+    (hP : M.P = W.P) (hρ : ∀ y, VOk.shaped (vvty y) (ρ y) = true)
+    (hf : mslOpForm o = .unary u)
+    (hx : VSimM W M env ρ x x' tx) (htx : VIr.typeOf W.sig vty vvty x = some tx)
+    (ht : VIr.typeOf W.sig vty vvty (.op o (.cons x .nil)) = some t)
+    (hok : match irOpSem o, tx with
+      | .un .lnot, _ => True
+      | .un _, .sc k => VOk.arithK k = true
+      | _, _ => True) :
+    VSimM W M env ρ (.op o (.cons x .nil)) (.un u x') t := by
+  have hsem := op_unaryM hf
+  simp only [VIr.typeOf, htx] at ht
+  cases hm : irOpSem o with
+  | un m =>
+    rw [hm] at ht hok
+    have hlx : t = tx ∧ (m = .lnot → tx.scalar = .bool) := by
+      cases m <;> simp at ht
+      all_goals first
+        | exact ⟨ht.2.symm, fun _ => ht.1.1⟩
+        | exact ⟨ht.2.symm, by simp⟩
+    obtain ⟨rfl, hb⟩ := hlx
+    cases t with
+    | sc k =>
+      by_cases hl : m = .lnot
+      · subst hl
+        have hk : k = .bool := by simpa [VTy.scalar] using hb rfl
+        subst hk
+        constructor
+        · simp [VMsl.typeOf, hsem, hm, hx.1, VTy.withScalar]
+        · intro σ
+          simp only [VMsl.eval, hsem, hm, hx.1, if_true, convMVR_self, hx.2 σ, VIr.eval]
+          cases hv : VIr.eval W ρ x σ with
+          | none => rfl
+          | some r =>
+            obtain ⟨v, σ1⟩ := r
+            obtain ⟨y, rfl⟩ := shaped_sc (shape_sound hρ x _ σ σ1 v htx hv)
+            simp only [lift1, hP]
+            cases unop W.P .lnot y <;> rfl
+      · have hak : VOk.arithK k = true := by
+          cases m <;> simp at hl <;> simpa using hok
+        have hpk : Msl.promote k = k := by rcases arithK_cases hak with rfl | rfl | rfl <;> rfl
+        have hkl : k ≠ .lit := by rcases arithK_cases hak with rfl | rfl | rfl <;> simp
+        constructor
+        · simp only [VMsl.typeOf, hsem, hm, hx.1]
+          cases m <;> simp at hl <;> simp [hpk]
+        · intro σ
+          simp only [VMsl.eval, hsem, hm, hx.1, hl, if_false, hpk, convMVR_self, hx.2 σ, VIr.eval]
+          cases hv : VIr.eval W ρ x σ with
+          | none => rfl
+          | some r =>
+            obtain ⟨v, σ1⟩ := r
+            obtain ⟨y, rfl⟩ := shaped_sc (shape_sound hρ x _ σ σ1 v htx hv)
+            simp only [lift1, Msl.unopM, hkl, if_false, hP]
+            cases unop W.P m y <;> rfl
+    | vec k n =>
+      constructor
+      · simp only [VMsl.typeOf, hsem, hm, hx.1]
+        cases m <;> simp [VTy.withScalar]
+        simpa [VTy.scalar] using (hb rfl).symm
+      · intro σ
+        have hcond : ¬ (m = .lnot ∧ k ≠ .bool) := by
+          intro h; exact h.2 (by simpa [VTy.scalar] using hb h.1)
+        simp only [VMsl.eval, hsem, hm, hx.1, hcond, if_false, hx.2 σ, VIr.eval, hP]
+        cases VIr.eval W ρ x σ with
+        | none => rfl
+        | some r =>
+          obtain ⟨v, σ1⟩ := r
+          simp only []
+          cases lift1 (unop W.P m) v <;> rfl
+  | _ => rw [hm] at ht; simp at ht
+
+
+/-- two operands of one type `T`, `T` scalar: the kind is int / uint (shifts) or int / uint / float -/
+def binSide (m : MBin) (T : VTy) : Prop :=
+  match T with
+  | .sc k => (if Msl.isShift m then VOk.intK k else VOk.arithK k) = true
+  | .vec _ _ => True
+
+theorem binTy_self {m : MBin} {T : VTy} (h : binSide m T) : VMsl.binTy m T T = some T := by
+  cases T with
+  | vec k n => simp [VMsl.binTy]
+  | sc k =>
+    simp only [binSide] at h
+    by_cases hs : Msl.isShift m = true
+    · simp only [hs, if_true] at h
+      rcases intK_cases h with rfl | rfl <;> simp [VMsl.binTy, hs, Msl.promote, Msl.isInteger]
+    · have hs' : Msl.isShift m = false := by simpa using hs
+      simp only [hs', Bool.false_eq_true, if_false] at h
+      rcases arithK_cases h with rfl | rfl | rfl <;> simp [VMsl.binTy, hs', Msl.common, Msl.promote]
+
+/-- value of a binary operator on two values of the shape of the operand type -/
+theorem binAt_self {P : Prim} {m : MBin} {T : VTy} {va vb : VVal} (h : binSide m T) (ha : VOk.shaped T va = true) (hb : VOk.shaped T vb = true) :
+    VMsl.binAt P T T T m va vb = lift2 (binop P m) va vb := by
+  cases T with
+  | vec k n => simp [VMsl.binAt]
+  | sc k =>
+    obtain ⟨x, rfl⟩ := shaped_sc ha
+    obtain ⟨y, rfl⟩ := shaped_sc hb
+    simp only [binSide] at h
+    by_cases hs : Msl.isShift m = true
+    · simp only [hs, if_true] at h
+      rcases intK_cases h with rfl | rfl <;> simp [VMsl.binAt, hs, VTy.scalar, Msl.promote, Msl.shiftM, lift2]
+    · have hs' : Msl.isShift m = false := by simpa using hs
+      simp only [hs', Bool.false_eq_true, if_false] at h
+      rcases arithK_cases h with rfl | rfl | rfl <;> simp [VMsl.binAt, hs', Msl.binopM, lift2]
+
+theorem operand_tys {m : MBin} {T : VTy} (h : binSide m T) : VMsl.operandTy m T T = T := by
+  cases T with
+  | vec k n => rfl
+  | sc k =>
+    simp only [binSide] at h
+    by_cases hs : Msl.isShift m = true
+    · simp only [hs, if_true] at h
+      rcases intK_cases h with rfl | rfl <;> simp [VMsl.operandTy, hs, VTy.scalar, Msl.promote]
+    · have hs' : Msl.isShift m = false := by simpa using hs
+      simp [VMsl.operandTy, hs']
+
+theorem sim_mbin {vty : Var → Ty} {o : IntrinsicOp} {b : BinOp} {x y : VExpr} {x' y' : VAExpr} {tx ty t : VTy}
+    (hP : M.P = W.P) (hρ : ∀ z, VOk.shaped (vvty z) (ρ z) = true)
+    (hsem : astBinSem b = irOpSem o)
+    (hx : VSimM W M env ρ x x' tx) (htx : VIr.typeOf W.sig vty vvty x = some tx)
+    (hy : VSimM W M env ρ y y' ty) (hty : VIr.typeOf W.sig vty vvty y = some ty)
+    (ht : VIr.typeOf W.sig vty vvty (.op o (.cons x (.cons y .nil))) = some t)
+    (hok : ∀ m, irOpSem o = .bin m → binSide m tx) :
+    VSimM W M env ρ (.op o (.cons x (.cons y .nil))) (.bin b x' y') t := by
+  simp only [VIr.typeOf, htx, hty] at ht
+  cases hm : irOpSem o with
+  | bin m =>
+    have hside := hok m hm
+    rw [hm] at ht
+    simp only [] at ht
+    split at ht
+    · rename_i hc
+      obtain ⟨rfl, _⟩ := hc
+      have hres : t = VMsl.resTy m tx := by
+        cases hcmp : m.isCmp <;> simp [hcmp, VMsl.resTy] at ht ⊢ <;> exact ht.symm
+      have hbt := binTy_self hside
+      have hot := operand_tys hside
+      constructor
+      · simp [VMsl.typeOf, hsem, hm, hx.1, hy.1, hbt, hres]
+      · intro σ
+        simp only [VMsl.eval, hsem, hm, hx.1, hy.1, hbt, hot, VMsl.operandR, convMVR_self, hx.2 σ, VIr.eval]
+        cases hvx : VIr.eval W ρ x σ with
+        | none => rfl
+        | some r =>
+          obtain ⟨va, σ1⟩ := r
+          simp only [hy.2 σ1]
+          cases hvy : VIr.eval W ρ y σ1 with
+          | none => rfl
+          | some r2 =>
+            obtain ⟨vb, σ2⟩ := r2
+            have sa := shape_sound hρ x tx σ σ1 va htx hvx
+            have sb := shape_sound hρ y tx σ1 σ2 vb hty hvy
+            simp only [binAt_self hside sa sb, hP]
+            cases lift2 (binop W.P m) va vb <;> rfl
+    · simp at ht
+  | land =>
+    rw [hm] at ht
+    have hb : tx = .sc .bool ∧ ty = .sc .bool ∧ t = .sc .bool := by
+      cases tx with
+      | vec k n => simp at ht
+      | sc k =>
+        cases ty with
+        | vec k2 n2 => cases k <;> simp at ht
+        | sc k2 => cases k <;> cases k2 <;> simp at ht <;> exact ⟨rfl, rfl, ht.symm⟩
+    obtain ⟨rfl, rfl, rfl⟩ := hb
+    constructor
+    · simp [VMsl.typeOf, hsem, hm, hx.1, hy.1]
+    · intro σ
+      simp only [VMsl.eval, hsem, hm, hx.1, hy.1, convMVR_self, hx.2 σ, VIr.eval]
+      cases VIr.eval W ρ x σ with
+      | none => rfl
+      | some r =>
+        obtain ⟨v, σ1⟩ := r
+        cases v with
+        | vec vs => simp
+        | sc sv =>
+          cases sv with
+          | b bv =>
+            cases bv
+            · simp
+            · simp only [hy.2 σ1]
+              cases VIr.eval W ρ y σ1 with
+              | none => simp
+              | some r2 =>
+                obtain ⟨w, σ2⟩ := r2
+                cases w with
+                | vec ws => simp
+                | sc sw => cases sw <;> simp
+          | _ => simp
+  | lor =>
+    rw [hm] at ht
+    have hb : tx = .sc .bool ∧ ty = .sc .bool ∧ t = .sc .bool := by
+      cases tx with
+      | vec k n => simp at ht
+      | sc k =>
+        cases ty with
+        | vec k2 n2 => cases k <;> simp at ht
+        | sc k2 => cases k <;> cases k2 <;> simp at ht <;> exact ⟨rfl, rfl, ht.symm⟩
+    obtain ⟨rfl, rfl, rfl⟩ := hb
+    constructor
+    · simp [VMsl.typeOf, hsem, hm, hx.1, hy.1]
+    · intro σ
+      simp only [VMsl.eval, hsem, hm, hx.1, hy.1, convMVR_self, hx.2 σ, VIr.eval]
+      cases VIr.eval W ρ x σ with
+      | none => rfl
+      | some r =>
+        obtain ⟨v, σ1⟩ := r
+        cases v with
+        | vec vs => simp
+        | sc sv =>
+          cases sv with
+          | b bv =>
+            cases bv
+            · simp only [hy.2 σ1]
+              cases VIr.eval W ρ y σ1 with
+              | none => simp
+              | some r2 =>
+                obtain ⟨w, σ2⟩ := r2
+                cases w with
+                | vec ws => simp
+                | sc sw => cases sw <;> simp
+            · simp
+          | _ => simp
+  | _ => rw [hm] at ht; simp at ht
+
 --NEXT
 end RsslVerif.Lemmas.GenMslVec
